@@ -8,6 +8,22 @@ KF_DENSE = 'label-omits-record-in-dense-cluster'
 KF_UNION = 'label-unions-exclusive-records'
 
 
+def stop_lost_inframe(r, extra) -> bool:
+    """an omitted record that is NOT frameshifting and overlaps the annotated stop codon: the
+    unchanged tree labels read-through peptides with such a record (start_gain of the ORF)"""
+    orf = r['desc'].get('orf')
+    if not orf:
+        return False
+    e0 = orf[1]
+    for om in extra:
+        # (stop-codon SNVs are among the records the unchanged tree is known to omit: only in-frame
+        # insertions / deletions that take the stop codon out count here)
+        if om and len(om[3]) != len(om[2]) and (len(om[3]) - len(om[2])) % 3 == 0 \
+                and om[0] < e0 + 3 and e0 < om[1]:
+            return True
+    return False
+
+
 def judge(ctx, res, stream):
     for r in res:
         if 'line_A' not in r or r.get('no_spec') or 'witness_no' not in r:
@@ -34,7 +50,16 @@ def judge(ctx, res, stream):
                 extra = [idnames.get(int(x)) for x in comp[6:].split(',')]
                 how = f' (it becomes one when the records {extra} are added)'
                 key = KF_FS
-                if r.get('omitted_inside', {}).get(entry) == 'inside':
+                where = r.get('omitted_inside', {}).get(entry)
+                if where == 'adjacent':
+                    # the omitted record bounds the peptide (it creates / removes the cleavage site
+                    # at the peptide's edge): the unchanged tree names such records
+                    how += '; an omitted record lies directly at the edge of the peptide (cleavage gain / loss)'
+                    key = None
+                elif stop_lost_inframe(r, extra):
+                    how += '; an omitted in-frame record removes the annotated stop codon (read-through)'
+                    key = None
+                if where == 'inside':
                     # the omitted record changes the peptide itself: not the known class (records
                     # UPSTREAM of the peptide that only let translation reach it)
                     how += '; an omitted record lies INSIDE the stretch that encodes the peptide'
